@@ -100,6 +100,8 @@ SUMMARY = {
     "C04-F": ("lock_with_timeout(): blocking-acquire path no longer pushes the lock → never released", "a second thread's send_packet(timeout=finite) while another thread is inside send_packet, then any later send"),
     "C05-E": ("asyncio datagram adapter recv(): unshielded coro_yield after recvfrom() dequeued the datagram", "a queued datagram and a cancellation (timeout 0, iter_received_packets default, task.cancel) landing on that yield"),
     "C05-F": ("PickleSerializer.deserialize: except Exception → a tuple of documented exceptions", "well-formed opcodes with ill-typed operands (TypeError, OverflowError)"),
+    "C06-E": ("PickleSerializer.deserialize: except Exception → an explicit tuple of documented exceptions", "a corrupted length field (MemoryError / OverflowError from the unpickler)"),
+    "C06-F": ("LimitOverrunError.__init__: the tail is kept only if the whole tail is a separator prefix", "separator ≥ 3 bytes, the limit-exceeding read stops inside the separator after an ordinary byte"),
     "C07-E": ("raw JSON plain-value loop scans only the new bytes; not-complete check uses len(chunk)", "a never-terminated number arriving in reads each ≤ limit"),
     "C07-F": ("raw JSON: quote-free chunk inside a string appended without the per-byte loop (skips the limit check)", "a never-closed string fed in quote-free reads"),
     "C08-E": ("_IncomingDataReader: the 256 KiB staging buffer comes from a cached module helper (shared by all transports)", "two TLS connections parked in a read, cipher-text for both in the same iteration"),
